@@ -166,9 +166,10 @@ def subRange (axes : List Nat) (t1 t2 : Key) (h : Hist) : Hist :=
 
 /-! ### std containers -/
 
-/-- `fill_histogram(view, std::vector<T>&)` on a gray view: `resize(max+1)`, `++hist[p]` -/
+/-- `fill_histogram(view, std::vector<T>&)` on a gray view (`old` = [] when not accumulating): the vector grows to max+1
+    entries but never shrinks (fix 09f7546), then `++hist[p]` -/
 def vectorFill (size : Nat) (old : List Nat) (pixels : List Int) : List Nat :=
-  let base := (old ++ List.replicate (size - old.length) 0).take size      -- histogram.resize(max + 1)
+  let base := old ++ List.replicate (size - old.length) 0      -- if (histogram.size() < bins) histogram.resize(bins)
   pixels.foldl (fun v p => v.set p.toNat (v.getD p.toNat 0 + 1)) base
 
 /-! ### Spec -/
